@@ -66,7 +66,7 @@ def parsePair {α β : Type} (pa : P α) (pb : P β) : P (α × β) := fun p =>
     | none => none
   | none => none
 
-def serChk (c : ChkInfo) : Bytes := serNat c.id ++ serInt c.minTs ++ serInt c.maxTs ++ serNat c.root
+def serChk (c : ChkInfo) : Bytes := serNat c.id ++ serInt c.minTs ++ serInt c.maxTs ++ serNat c.root ++ serNat c.recs
 
 def parseChk : P ChkInfo := fun p =>
   match parseNat p with
@@ -76,7 +76,10 @@ def parseChk : P ChkInfo := fun p =>
       match parseInt r2 with
       | some (mx, r3) =>
         match parseNat r3 with
-        | some (root, r4) => some (⟨id, mn, mx, root⟩, r4)
+        | some (root, r4) =>
+          match parseNat r4 with
+          | some (recs, r5) => some (⟨id, mn, mx, root, recs⟩, r5)
+          | none => none
         | none => none
       | none => none
     | none => none
